@@ -316,7 +316,7 @@ pub fn def() -> PropDef {
                 name: "orbit",
                 rule: "n<=6, independent orbit oracle",
                 strategy: strategy_small,
-                cases: (3_000, 120_000),
+                cases: (20_000, 200_000),
                 exhaustive: Some(enumerate_orbit),
                 exhaustive_note: "all functions of n<=3 (quick) / n<=4 (thorough) x {P,N,NPN} x {Lut,LutN}",
                 run: run_orbit,
@@ -325,7 +325,7 @@ pub fn def() -> PropDef {
                 name: "orbit-large",
                 rule: "n in {7,8}, independent orbit oracle",
                 strategy: strategy_large,
-                cases: (24, 800),
+                cases: (96, 1_600),
                 exhaustive: None,
                 exhaustive_note: "",
                 run: run_orbit,
